@@ -812,3 +812,39 @@ _run_before_syncrx = run
 def run(ctx):
     _run_before_syncrx(ctx)
     sync_rx_table(ctx)
+
+
+def link_table_rebuilt(ctx):
+    """The object -> TPDO link table (which TPDOs a changed object triggers) is REBUILT by every TPDO initialisation: the table
+    is cleared before the mappings are walked again.  Without the clear every re-entry into OPERATIONAL adds the links a second
+    time, and one change of an object sends the TPDO once per earlier start."""
+    m = ctx.m
+    f = 'COTPdoInit'
+    m.need(f, 'COTPdoMapClear', 'COTPdoMapAdd')
+    props = ['C12', 'C09']
+    g = m.cfg(f)
+
+    def reaches(callee, target):
+        return callee is not None and (callee == target or target in m.reachable_funcs([callee]))
+    clear = set(nd.id for nd in g.nodes if nd.x is not None and any(c.k == 'call' and reaches(callee_name(c), 'COTPdoMapClear') for c in walk(nd.x)))
+    adders = [nd for nd in g.nodes if nd.x is not None and nd.id not in clear and
+              any(c.k == 'call' and reaches(callee_name(c), 'COTPdoMapAdd') for c in walk(nd.x))]
+    ctx.require_min(props, 'RF2-tpdo-links', len(adders), 1, 'calls in COTPdoInit that (re)build object -> TPDO links')
+    r = flow.reach_from(g, g.entry.id, avoid=clear, include_start=True)
+    for nd in adders:
+        site = '%s: %s' % (m.loc(f, nd.line), show(nd.x)[:60])
+        if nd.id in r:
+            ctx.ob(props, 'RF2-tpdo-links', f, site, None)
+            ctx.find(props, 'RF2-tpdo-links', f, 'links-not-cleared', m.loc(f, nd.line),
+                     'COTPdoInit rebuilds the object -> TPDO links (%s) on a path that has not cleared the link table (COTPdoMapClear): every '
+                     're-entry into OPERATIONAL adds the links again and one change of a mapped object sends the TPDO several times' % show(nd.x)[:50])
+        else:
+            ctx.ob(props, 'RF2-tpdo-links', f, site, 'link table cleared first on every path')
+
+
+_run_before_links = run
+
+
+def run(ctx):
+    _run_before_links(ctx)
+    link_table_rebuilt(ctx)
